@@ -38,6 +38,13 @@ EC_DEF = [(10, "ec10", "mm", 0, 100, 50, U4, 50), ("ex", "ecx", "V", -5.0, 5.0, 
 AL_DEF = [(1, "al1", "text1", 1), (2, "al2", "text2", 2), (3, "al3", "", 6)]
 
 
+def alcd_z(v):
+    # the zero-length ALCD of an alarm that does not exist is -1 in the reference (Spec.E5Data.NO_ALCD)
+    if v is None or (hasattr(v, "__len__") and len(v) == 0):
+        return -1
+    return int(v[0]) if isinstance(v, (bytes, bytearray, list)) else int(v)
+
+
 class Equip:
     def __init__(self):
         self.rig = gemrig.GemRig(init="ONLINE", sub="REMOTE")
@@ -124,7 +131,7 @@ class Equip:
             return f"(DAlarmEnable {idl(op[1])} {L.bool_(aled >= 128)})", out
         if kind in ("list_al", "list_enabled"):
             r = self.request(5, 5, list(op[1])) if kind == "list_al" else self.request(5, 7)
-            out = "DAbort" if r is None else "(DAlarms [" + ";".join(f"({idl(e['ALID'])}, {L.z(int(e['ALCD']))}, {L.string(e['ALTX'])})" for e in r.get()) + "])"
+            out = "DAbort" if r is None else "(DAlarms [" + ";".join(f"({idl(e['ALID'])}, {L.z(alcd_z(e['ALCD']))}, {L.string(e['ALTX'])})" for e in r.get()) + "])"
             return (f"(DListAlarms {idsl(op[1])})" if kind == "list_al" else "DListEnabled"), out
         if kind in ("set_alarm", "clear_alarm"):
             fn = h.set_alarm if kind == "set_alarm" else h.clear_alarm
@@ -197,7 +204,7 @@ def rand_ops(rnd, n):
         elif c < 0.68:
             ops.append(("al_enable", rnd.choice(ALIDS + [7]), rnd.choice([True, True, True, True, False, False, 1, 127, 64, 128])))
         elif c < 0.74:
-            ops.append(("list_al", id_list(rnd, ALIDS + ([7] if rnd.random() < 0.2 else []))))
+            ops.append(("list_al", id_list(rnd, ALIDS + ([7, 9] if rnd.random() < 0.35 else []))))
         elif c < 0.80:
             ops.append(("list_enabled", []))
         elif c < 0.88:
@@ -217,6 +224,8 @@ DIRECTED = [
     [("set_ec", [(10, 20), ("ex", NAN)]), ("req_ec", [10, "ex"]), ("set_ec", [(40, NAN)]), ("set_ec", [(40, 1e300)]), ("set_ec", [("ex", 1e300)]), ("set_ec", [("ex", -1e300)]), ("req_ec", [])],
     [("list_al", []), ("list_enabled", []), ("set_alarm", 1), ("al_enable", 1, True), ("set_alarm", 1), ("clear_alarm", 1), ("set_alarm", 1), ("list_al", [1, 2]), ("list_enabled", []),
      ("al_enable", 1, False), ("clear_alarm", 1), ("set_alarm", 2), ("al_enable", 2, True), ("clear_alarm", 2), ("clear_alarm", 2), ("al_enable", 7, True), ("list_al", [3, 1, 1])],
+    # S5F5 naming alarms that do not exist: the known ones are still listed, the unknown ones come back with zero-length ALCD/ALTX
+    [("set_alarm", 2), ("list_al", [7]), ("list_al", [1, 7, 2]), ("list_al", [9, 2, 2, 7]), ("list_al", []), ("list_enabled", [])],
     # ALED bytes with bit 8 clear disable, whatever the other bits
     [("al_enable", 1, 1), ("list_enabled", []), ("set_alarm", 1), ("al_enable", 2, True), ("al_enable", 2, 127), ("list_enabled", []), ("set_alarm", 2), ("al_enable", 1, 128), ("list_enabled", []), ("clear_alarm", 1)],
 ]
